@@ -1,3 +1,4 @@
+import io
 import os
 import shutil
 import stat
@@ -239,7 +240,9 @@ class FsMethods(
 
 
 def _read_file(path):
-    with open(path) as f:
+    # errors='replace': a .trashinfo that is not valid text in the locale's
+    # encoding must not make every command die with UnicodeDecodeError
+    with io.open(path, errors='replace') as f:
         return f.read()
 
 
